@@ -67,8 +67,8 @@ TEXTS = ["abc", "a,b", 'q"t', "k: v", "#h", "sp ace"]
 TEXT_LABEL = ["abc", "comma", "quote", "colon", "hash", "space"]
 TEXTS_X = ["x;y", "it's", "50%", "a|b"]
 KEYS = ["info", "a_key", "k234567890123456789012345"]        # the last one has 25 characters
-CVALS = ["plain", "with: colon", "x:y:z", "#lead", "a , b", "9"]
-CVAL_LABEL = ["plain", "colon", "colons", "hash", "comma", "digit"]
+CVALS = ["plain", "with: colon", "x:y:z", "#lead", "a , b", "9", "410730 : Cotter at : Gingera"]
+CVAL_LABEL = ["plain", "colon", "colons", "hash", "comma", "digit", "spaced-colons"]
 CVALS_X = ["10:00:00 on 2020-01-02", "v=1 (approx. 50%)", "path/to/x.csv", "a - b -- c"]
 FORMATS = ["%0.5f", "%0.2f", "%.10e"]
 FLOATS = [1.5, 0.0, -2.25, 0.123456789, 12345.678915, -4e-6, 0.125]
@@ -76,7 +76,7 @@ FLOATS_X = [1e-7, 2.5e10, 0.005, 99.995]
 FLOAT_REST = [-0.123456789, 1234.000004]     # need more digits than %0.5f keeps: the format matters at k = 1
 INTS = [3, 0, -7, 2 ** 53 + 1, -2 ** 62]
 INT_REST = [10, -20]
-STEMS = ["x", "my file", "d-1_b", "d.v2"]
+STEMS = ["x", "my file", "d-1_b", "d.v2", "precip", "q.z", "fuzz"]      # the last three end in characters of ".zip"
 SOURCE = Path(__file__)
 LADDER = [7, 8, 9, 15, 16, 17, 31, 32, 33, 63, 64, 65, 100, 127, 128, 129, 255, 256, 257, 500, 501,
           511, 512, 513, 1000, 1001, 1023, 1024, 1025]
